@@ -68,12 +68,33 @@ SCRIPTS = {
     # two DIFFERENT scripts (graded under the same instructor file name) whose own function fails when student code calls it
     "raiser_a": ("from pedal import *\ndef broken(x):\n    raise ValueError('from script A')\n"
                  "mock_function('len', broken)\nrun()\n"),
+    # a question pool that picks its question by the POSITION of the pool among the pools created (list seed)
+    "qpool": ("from pedal import *\nfrom pedal.questions import Pool, Question, set_seed\nset_seed([0, 1, 0, 1, 0, 1])\n"
+              "qa = Question('QA', 'Create a for loop.', [lambda q: False])\nqb = Question('QB', 'Create an if statement.', [lambda q: False])\n"
+              "Pool('P1', [qa, qb]).choose().ask()\n"),
     "raiser_b": ("from pedal import *\ndef broken(x):\n    return int('not a number (script B)')\n"
                  "mock_function('len', broken)\nrun()\n"),
 }
 
-SLOTS = ["feedback", "suppressions", "hiddens", "hooks", "tooldata", "formatter", "overrides", "pools",
+SLOTS = ["feedback", "suppressions", "hiddens", "hooks", "tooldata", "formatter", "overrides", "pools", "question_pools",
          "sandbox_mocks", "tracer", "sections", "builtin_modules", "process_globals"]
+
+
+def next_pool_position(R):
+    """The position the next question pool of this report would get (observed by creating one, then put back)."""
+    import copy
+    from pedal.questions.pool import Pool
+    saved_counter = getattr(Pool, "_POOL_TRACKER", None)       # (the pinned code counted on the class)
+    saved_data = copy.copy(R._tool_data.get("questions"))
+    try:
+        return Pool("probe", report=R).position
+    finally:
+        if saved_counter is not None:
+            Pool._POOL_TRACKER = saved_counter
+        if saved_data is None:
+            R._tool_data.pop("questions", None)
+        else:
+            R._tool_data["questions"] = saved_data
 
 
 def grade(script_id, sub_id):
@@ -126,6 +147,9 @@ def slot_projection():
         dirty.append("overrides")
     if R.pools or R.chosen_pool or Feedback._pools:
         dirty.append("pools")
+    from pedal.questions.pool import Pool
+    if next_pool_position(R) != 0 or Pool._CURRENT:
+        dirty.append("question_pools")
     return dirty
 
 
